@@ -254,10 +254,13 @@ Fixpoint fr_trace (s : fstate) (ops : list fop) : list (rout * fstate) * bool :=
 Inductive vop :=
 | VPut (now : Z) (m_id : field) (tok : N) (topics : list bytes)
 | VReplay (now : Z) (last_id : field) (topics : list bytes) (script : list N)
-| VGC (now : Z).
+| VGC (now : Z)
+(* the user assigns the exported field GCInterval of a replayer in use; [now] is the instant of the
+   assignment (no code of the library runs; the next Put's shouldGC reads the new value) *)
+| VSetGCI (now : Z) (g : Z).
 
 Definition vop_now (op : vop) : Z :=
-  match op with VPut n _ _ _ => n | VReplay n _ _ _ => n | VGC n => n end.
+  match op with VPut n _ _ _ => n | VReplay n _ _ _ => n | VGC n => n | VSetGCI n _ => n end.
 
 Definition vr_step (s : vstate) (op : vop) : option (vstate * rout) :=
   match op with
@@ -266,6 +269,7 @@ Definition vr_step (s : vstate) (op : vop) : option (vstate * rout) :=
   | VReplay now id topics script =>
       match vr_replay s now id topics script with Some r => Some (s, OReplay r) | None => None end
   | VGC now => match vr_gc s now with Some s' => Some (s', OGC) | None => None end
+  | VSetGCI _ g => Some (mkv (v_q s) (v_cur s) (v_lastgc s) g (v_ttl s), OGC)   (* [OGC]: an operation without a result *)
   end.
 
 Fixpoint vr_trace (s : vstate) (ops : list vop) : list (rout * vstate) * bool :=
